@@ -39,7 +39,7 @@ def obligations():
                           A(' && '.join([UNCH_E, UNCH_F, UNCH_C, 'same_modes(&o, &m) && same_counters(&o, &m)']), 'everything_else_unchanged', n)])
         mh = MeshHarness(args='', snap='  witness(&o, 0, 0, 0, 0);\n  COVER(1, "reachable");\n  COVER(m.n_vertices_ > 0, "non-empty mesh");',
                          call='  { struct VH r = TopologyKernel__add_vertex(&m); ret = r.idx_; }', post=post, op='add_vertex')
-        obs.append(Ob(id='C11.' + n, props=['C11', 'C01', 'C03', 'C12'], tu='kernel', tier='B', roots=[TK + '::add_vertex'], harness=mh,
+        obs.append(Ob(id='C11.' + n, props=['C11', 'C01', 'C03', 'C12'], quick_for=['C11', 'C03'], tu='kernel', tier='B', roots=[TK + '::add_vertex'], harness=mh,
                       includes=['wf.h', 'view.h', 'add_spec.h'], copies=[TK], defines=d, unwind=UW(d), covers=2, timeout=600,
                       bounds=dict(vertices='2 (+1)', edges=1, faces=1), note='add_vertex; vertex bottom-up %s' % ('on' if on else 'off')))
     # ---------------------------------------------------------------- add_edge
@@ -60,7 +60,7 @@ def obligations():
                          snap='  witness(&o, a, b, dup, 0);\n  COVER(!dup && spec_live_edge_between(&m, a, b), "duplicate request");\n  COVER(!dup && !spec_live_edge_between(&m, a, b) && m.edges_.size > 0, "fresh edge in a non-empty mesh");',
                          call='  { struct VH ha; ha.idx_ = a; struct VH hb; hb.idx_ = b; struct EH r = TopologyKernel__add_edge(&m, ha, hb, dup); ret = r.idx_; }',
                          post=post, op='add_edge')
-        obs.append(Ob(id='C11.' + n, props=['C11', 'C01', 'C03', 'C12'], tu='kernel', tier='B', roots=[TK + '::add_edge'], harness=mh,
+        obs.append(Ob(id='C11.' + n, props=['C11', 'C01', 'C03', 'C12'], quick_for=['C11', 'C03'] + (['C01'] if on == 've' else []), tu='kernel', tier='B', roots=[TK + '::add_edge'], harness=mh,
                       includes=['wf.h', 'view.h', 'add_spec.h'], copies=[TK], defines=d, unwind=UW(d), covers=2, timeout=900,
                       bounds=dict(vertices=2, edges='2 (+1)', faces=1, outgoing_list='2 (+2)'), note='add_edge(a, b, allowDuplicates) with symbolic arguments; bottom-up kinds enabled: %s' % (on or 'none')))
     # ---------------------------------------------------------------- add_face(halfedges, check)
@@ -80,7 +80,7 @@ def obligations():
         mh = MeshHarness(args=list_args('HEH', 'PFV', '2 * m.edges_.size', '!EDEL(&m, x >> 1)'),
                          snap='  witness(&o, check, 0, 0, 0);\n  COVER(check && n > 0 && spec_closed_loop(&m, ovm_list, n), "accepted closed loop");\n  COVER(check && n > 0 && !spec_closed_loop(&m, ovm_list, n), "rejected open chain");',
                          call='  { struct FH r = TopologyKernel__add_face__std_vector_HEH_bool(&m, arg, check); ret = r.idx_; }', post=post, op='add_face', list_arg='ovm_list')
-        obs.append(Ob(id='C11.' + n, props=['C11', 'C01', 'C03', 'C12', 'C07'], tu='kernel', tier='B', roots=[(TK + '::add_face', 'std::vector<HalfEdgeHandle>, bool')], harness=mh,
+        obs.append(Ob(id='C11.' + n, props=['C11', 'C01', 'C03', 'C12', 'C07'], quick_for=['C11', 'C03'] + (['C01', 'C07'] if on == 'ef' else []), tu='kernel', tier='B', roots=[(TK + '::add_face', 'std::vector<HalfEdgeHandle>, bool')], harness=mh,
                       includes=['wf.h', 'view.h', 'add_spec.h'], copies=[TK], defines=d, unwind=UW(d), covers=2, timeout=900,
                       bounds=dict(vertices=2, edges=2, faces='1 (+1)', cells=1, list_length=2), note='add_face(halfedges, topologyCheck) with a symbolic list (empty and repeated entries included); bottom-up kinds enabled: %s' % (on or 'none')))
     # ---------------------------------------------------------------- add_cell(halffaces, check)
@@ -100,7 +100,7 @@ def obligations():
         mh = MeshHarness(args=list_args('HFH', 'PCV', '2 * m.faces_.size', '!FDEL(&m, x >> 1)', extra='__CPROVER_assume(!spec_hf_in_live_cell(&m, x));'),
                          snap='  witness(&o, check, 0, 0, 0);\n  COVER(check && n > 0 && spec_closed_surface(&m, ovm_list, n), "accepted closed surface");\n  COVER(check && n > 0 && !spec_closed_surface(&m, ovm_list, n), "rejected open surface");',
                          call='  { struct CH r = TopologyKernel__add_cell(&m, arg, check); ret = r.idx_; }', post=post, op='add_cell', list_arg='ovm_list')
-        obs.append(Ob(id='C11.' + n, props=['C11', 'C01', 'C03', 'C12', 'C07'], tu='kernel', tier='B', roots=[TK + '::add_cell'], harness=mh, stubs=REORDER_STUB,
+        obs.append(Ob(id='C11.' + n, props=['C11', 'C01', 'C03', 'C12', 'C07'], quick_for=['C11', 'C03'] + (['C01', 'C07'] if on == 'ef' else []), tu='kernel', tier='B', roots=[TK + '::add_cell'], harness=mh, stubs=REORDER_STUB,
                       includes=['wf.h', 'view.h', 'add_spec.h'], copies=[TK], defines=d, unwind=UW(d), covers=2, timeout=900,
                       bounds=dict(vertices=1, edges=2, faces=2, cells='1 (+1)', face_valence=2, list_length=2), note='add_cell(halffaces, topologyCheck) with a symbolic list of free halffaces (empty and repeated entries included); bottom-up kinds enabled: %s' % (on or 'none')))
     return obs
